@@ -1,2 +1,363 @@
-def regenerate(): pass
-def outside_alphabet(r): return []
+"""
+Translator for C06: regenerates lean/EasyNet/EasyNet/Gen/ExcTables.lean from /repo's current source.
+
+For every (serializer kind, entry point, codec call site) a *pipeline* is extracted: the list of `try` statements an exception
+raised at the codec call crosses on its way out (serializer method -> base-class wrapper -> protocol object -> stream consumer),
+each with its `except` clauses read from the AST: the classes caught (resolved against the live module / a live instance for
+`self.__attr` expressions) and what the handler does (raise a class, `pass`, bare `raise`).
+The subclass relation among all classes involved is taken from the live interpreter.
+The *alphabet* of a pipeline (what the wrapped library may raise there on bytes input) is declared here; the fuzzing run of C06
+checks that nothing outside it was ever raised (`outside_alphabet`).
+"""
+from __future__ import annotations
+
+import ast
+import importlib
+import inspect
+import textwrap
+from typing import Any
+
+from vlib import core, sers
+
+GEN = core.LEAN / "EasyNet" / "Gen" / "ExcTables.lean"
+
+# ---------------------------------------------------------------------------------------------------------------------
+# where the try statements are: (module, qualified function name, substring that the try *body* must contain)
+# ---------------------------------------------------------------------------------------------------------------------
+M = "easynetwork.serializers."
+P = "easynetwork.protocol"
+S = "easynetwork.lowlevel._stream"
+
+TOP = {
+    "oneshot": [(P, "DatagramProtocol.build_packet_from_datagram", "deserialize(")],
+    "copy": [(P, "StreamProtocol.build_packet_from_chunks", "incremental_deserialize("),
+             (S, "StreamDataConsumer.next", "consumer.send(")],
+    "buffered": [(P, "BufferedStreamProtocol.build_packet_from_buffer", "buffered_incremental_deserialize("),
+                 (S, "BufferedStreamDataConsumer.next", "consumer.send(")],
+}
+AUTOSEP = {"copy": (M + "base_stream", "AutoSeparatedPacketSerializer.incremental_deserialize", "self.deserialize("),
+           "buffered": (M + "base_stream", "AutoSeparatedPacketSerializer.buffered_incremental_deserialize", "self.deserialize(")}
+FIXED = {"copy": (M + "base_stream", "FixedSizePacketSerializer.incremental_deserialize", "self.deserialize("),
+         "buffered": (M + "base_stream", "FixedSizePacketSerializer.buffered_incremental_deserialize", "self.deserialize(")}
+
+UNI = ["builtins.UnicodeDecodeError"]
+PICKLE_ALPHABET = ["_pickle.UnpicklingError", "builtins.EOFError", "builtins.AttributeError", "builtins.ImportError",
+                   "builtins.ModuleNotFoundError", "builtins.IndexError", "builtins.KeyError", "builtins.TypeError",
+                   "builtins.ValueError", "builtins.OverflowError", "builtins.MemoryError", "builtins.UnicodeDecodeError",
+                   "builtins.RecursionError", "builtins.NameError", "builtins.SystemError", "builtins.NotImplementedError",
+                   "builtins.AssertionError", "builtins.LookupError", "builtins.ArithmeticError"]
+DESER = ["easynetwork.exceptions.DeserializeError"]
+
+# pipelines: name -> (instance spec for resolving self.__attrs, inner sites per entry point, alphabet)
+def _pipelines() -> list[dict]:
+    js = {"k": "json", "use_lines": True, "limit": 65536}
+    line = {"k": "line", "newline": "LF", "limit": 65536, "encoding": "utf-8"}
+    out: list[dict] = []
+
+    def add(name: str, spec: dict | None, sites: dict[str, list[tuple[str, str, str]]], alphabet: list[str]):
+        for ep, inner in sites.items():
+            out.append({"name": f"{name}/{ep}", "spec": spec, "sites": inner + TOP[ep], "alphabet": alphabet, "entry": ep})
+
+    J = M + "json"
+    add("json.unicode", js, {"oneshot": [(J, "JSONSerializer.deserialize", "str(")],
+                             "copy": [(J, "JSONSerializer.incremental_deserialize", "str(")]}, UNI)
+    add("json.decode", js, {"oneshot": [(J, "JSONSerializer.deserialize", "self.__decoder.decode(")],
+                            "copy": [(J, "JSONSerializer.incremental_deserialize", "self.__decoder.decode(")]},
+        ["json.decoder.JSONDecodeError", "builtins.RecursionError", "builtins.ValueError"])
+    L = M + "line"
+    add("line.unicode", line, {"oneshot": [(L, "StringLineSerializer.deserialize", "str(")],
+                               "copy": [(L, "StringLineSerializer.incremental_deserialize", "str(")],
+                               "buffered": [(L, "StringLineSerializer.buffered_incremental_deserialize", "str(")]}, UNI)
+    ST = M + "struct"
+    st = {"k": "struct", "format": "!IH"}
+    add("struct.unpack", st, {"oneshot": [(ST, "AbstractStructSerializer.deserialize", "unpack(")],
+                              "copy": [(ST, "AbstractStructSerializer.deserialize", "unpack("), FIXED["copy"]],
+                              "buffered": [(ST, "AbstractStructSerializer.deserialize", "unpack("), FIXED["buffered"]]},
+        ["struct.error"])
+    add("ntstruct.unicode", {"k": "ntstruct"},
+        {"oneshot": [(ST, "NamedTupleStructSerializer.from_tuple", "str(")],
+         "copy": [(ST, "NamedTupleStructSerializer.from_tuple", "str("), FIXED["copy"]],
+         "buffered": [(ST, "NamedTupleStructSerializer.from_tuple", "str("), FIXED["buffered"]]}, UNI)
+    B = M + "wrapper.base64"
+    b64 = {"k": "b64", "inner": js, "limit": 65536}
+    add("base64.decode", b64, {"oneshot": [(B, "Base64EncoderSerializer.deserialize", "self.__decode(")],
+                               "copy": [(B, "Base64EncoderSerializer.deserialize", "self.__decode("), AUTOSEP["copy"]],
+                               "buffered": [(B, "Base64EncoderSerializer.deserialize", "self.__decode("), AUTOSEP["buffered"]]},
+        ["binascii.Error"])
+    add("autosep.inner", b64, {"oneshot": [], "copy": [AUTOSEP["copy"]], "buffered": [AUTOSEP["buffered"]]}, DESER)
+    add("fixed.inner", st, {"oneshot": [], "copy": [FIXED["copy"]], "buffered": [FIXED["buffered"]]}, DESER)
+    C = M + "wrapper.compressor"
+    GEN_INC = (C, "AbstractCompressorSerializer.__generic_incremental_deserialize", "decompressor.decompress(")
+    GEN_INNER = (C, "AbstractCompressorSerializer.__generic_incremental_deserialize", "self.__serializer.deserialize(")
+    for kind, alpha in (("zlib", ["zlib.error"]), ("bz2", ["builtins.OSError"])):
+        # (bz2's EOFError needs a decompress() call after eof: excluded by the `while not decompressor.eof` guard)
+        spec = {"k": kind, "inner": js}
+        add(f"{kind}.decompress", spec,
+            {"oneshot": [(C, "AbstractCompressorSerializer.deserialize", "decompressor.decompress(")],
+             "copy": [GEN_INC], "buffered": [GEN_INC]}, alpha)
+        add(f"{kind}.inner", spec, {"oneshot": [], "copy": [GEN_INNER], "buffered": [GEN_INNER]}, DESER)
+    PK = M + "pickle"
+    add("pickle.load", {"k": "pickle"}, {"oneshot": [(PK, "PickleSerializer.deserialize", ".load()")]}, PICKLE_ALPHABET)
+    FB = M + "base_stream"
+    toy = {"k": "filetoy", "limit": 64}
+    GEN_FB = (FB, "FileBasedPacketSerializer.__generic_incremental_deserialize", "self.load_from_file(")
+    add("filebased.load", toy, {"oneshot": [(FB, "FileBasedPacketSerializer.deserialize", "self.load_from_file(")],
+                                "copy": [GEN_FB], "buffered": [GEN_FB]},
+        ["vlib.sers.ToyFileError", "builtins.EOFError"])
+    add("limit", None, {"copy": [], "buffered": []}, ["easynetwork.exceptions.LimitOverrunError"])
+    add("converter", None,
+        {"oneshot": [(P, "DatagramProtocol.build_packet_from_datagram", "create_from_dto_packet(")],
+         "copy": [(P, "StreamProtocol.build_packet_from_chunks", "create_from_dto_packet("),
+                  (S, "StreamDataConsumer.next", "consumer.send(")],
+         "buffered": [(P, "BufferedStreamProtocol.build_packet_from_buffer", "create_from_dto_packet("),
+                      (S, "BufferedStreamDataConsumer.next", "consumer.send(")]},
+        ["easynetwork.exceptions.PacketConversionError"])
+    # converter pipelines carry their own top layers: drop the generic TOP that `add` appended
+    for p in out:
+        if p["name"].startswith("converter/"):
+            n = len(TOP[p["entry"]])
+            p["sites"] = p["sites"][:-n]
+    return out
+
+
+# EOFError in the incremental file-based path means "need more data" (handler body is `pass`): not an error outcome.
+SWALLOW_OK = {("filebased.load/copy", "builtins.EOFError"), ("filebased.load/buffered", "builtins.EOFError")}
+PARSE_ERRORS = ["easynetwork.exceptions.StreamProtocolParseError", "easynetwork.exceptions.DatagramProtocolParseError"]
+
+
+class TranslateError(Exception):
+    pass
+
+
+def _qual(cls: type) -> str:
+    return cls.__module__ + "." + cls.__qualname__
+
+
+def _find_func(modname: str, qualname: str) -> tuple[ast.FunctionDef, Any, str]:
+    mod = importlib.import_module(modname)
+    src = inspect.getsource(mod)
+    tree = ast.parse(src)
+    cls_name, _, fn_name = qualname.partition(".")
+    for node in tree.body:
+        if isinstance(node, ast.ClassDef) and node.name == cls_name:
+            for sub in node.body:
+                if isinstance(sub, (ast.FunctionDef, ast.AsyncFunctionDef)) and sub.name == fn_name:
+                    return sub, mod, cls_name
+    raise TranslateError(f"function {modname}.{qualname} not found")
+
+
+def _find_try(fn: ast.AST, needle: str, where: str) -> ast.Try:
+    hits = []
+    for node in ast.walk(fn):
+        if isinstance(node, ast.Try):
+            body_src = "\n".join(ast.unparse(b) for b in node.body)
+            if needle in body_src:
+                hits.append(node)
+    if not hits:
+        raise TranslateError(f"no try statement around {needle!r} in {where}")
+    # innermost (smallest) try whose body contains the call
+    hits.sort(key=lambda n: len(ast.unparse(n)))
+    return hits[0]
+
+
+def _resolve(expr: ast.expr, mod: Any, cls_name: str, instance: Any, fn: ast.AST) -> list[type]:
+    if isinstance(expr, ast.Tuple):
+        out: list[type] = []
+        for e in expr.elts:
+            out.extend(_resolve(e, mod, cls_name, instance, fn))
+        return out
+    if isinstance(expr, ast.Name):
+        import builtins
+        if hasattr(mod, expr.id):
+            v = getattr(mod, expr.id)
+        elif hasattr(builtins, expr.id):
+            v = getattr(builtins, expr.id)
+        else:
+            raise TranslateError(f"cannot resolve exception name {expr.id}")
+        return list(v) if isinstance(v, tuple) else [v]
+    if isinstance(expr, ast.Attribute) and isinstance(expr.value, ast.Name) and expr.value.id == "self":
+        attr = expr.attr
+        if attr.startswith("__") and not attr.endswith("__"):
+            attr = f"_{cls_name}{attr}"
+        if instance is None:
+            raise TranslateError(f"need an instance to resolve self.{expr.attr}")
+        v = getattr(instance, attr)
+        return list(v) if isinstance(v, tuple) else [v]
+    if isinstance(expr, ast.Attribute):
+        # module.attr, e.g. _JSONParser._PlainValueError
+        base = _resolve(expr.value, mod, cls_name, instance, fn) if not isinstance(expr.value, ast.Name) else [getattr(mod, expr.value.id)]
+        return [getattr(base[0], expr.attr)]
+    raise TranslateError(f"unsupported except expression {ast.unparse(expr)}")
+
+
+def _action(h: ast.ExceptHandler, mod: Any, cls_name: str, instance: Any, fn: ast.AST) -> tuple[str, type | None]:
+    raises = [n for n in ast.walk(h) if isinstance(n, ast.Raise)]
+    if not raises:
+        # `pass`, or a handler that returns normally (e.g. StopIteration carrying the result): nothing propagates
+        return "swallow", None
+    classes: set[type] = set()
+    for r in raises:
+        if r.exc is None:
+            return "reraise", None
+        call = r.exc
+        target = call.func if isinstance(call, ast.Call) else call
+        classes.update(_resolve(target, mod, cls_name, instance, fn))
+    if len(classes) != 1:
+        raise TranslateError(f"handler raises several classes: {classes}")
+    return "convert", classes.pop()
+
+
+def extract() -> tuple[list[dict], list[type]]:
+    """pipelines with resolved layers, and the list of all classes involved"""
+    pipelines = _pipelines()
+    classes: dict[str, type] = {}
+    inst_cache: dict[str, Any] = {}
+
+    def note(c: type) -> str:
+        classes[_qual(c)] = c
+        return _qual(c)
+
+    def cls_by_name(q: str) -> type:
+        modname, _, name = q.rpartition(".")
+        return getattr(importlib.import_module(modname), name)
+
+    for p in pipelines:
+        key = repr(p["spec"])
+        if p["spec"] is not None and key not in inst_cache:
+            inst_cache[key] = sers.build(p["spec"])
+        instance = inst_cache.get(key)
+        layers = []
+        for modname, qual, needle in p["sites"]:
+            fn, mod, cls_name = _find_func(modname, qual)
+            tr = _find_try(fn, needle, f"{modname}.{qual}")
+            handlers = []
+            for h in tr.handlers:
+                if h.type is None:
+                    caught = [BaseException]
+                else:
+                    caught = _resolve(h.type, mod, cls_name, instance, fn)
+                kind, target = _action(h, mod, cls_name, instance, fn)
+                handlers.append({"classes": [note(c) for c in caught], "action": kind,
+                                 "target": note(target) if target is not None else None})
+            layers.append({"site": f"{modname}.{qual}[{needle}]", "handlers": handlers})
+        p["layers"] = layers
+        for a in p["alphabet"]:
+            note(cls_by_name(a))
+    for q in PARSE_ERRORS + ["builtins.RuntimeError", "builtins.Exception", "builtins.BaseException"]:
+        note(cls_by_name(q))
+    return pipelines, list(classes.values())
+
+
+def _lean_name(q: str) -> str:
+    return q.replace(".", "_").replace("__", "_")
+
+
+def render() -> str:
+    pipelines, classes = extract()
+    names = sorted({_qual(c) for c in classes})
+    cls = {q: c for q, c in ((_qual(c), c) for c in classes)}
+    L: list[str] = []
+    L.append("/-")
+    L.append("  GENERATED by harness/translate/exc_tables.py from /repo's current source on every check run — do not edit.")
+    L.append("  Exception classes involved in deserialization, their live subclass relation, and for every codec call site the")
+    L.append("  except-clause layers an exception crosses on its way out (read from the AST).")
+    L.append("-/")
+    L.append("import EasyNet.Model.ExcFlow")
+    L.append("namespace EasyNet.Gen")
+    L.append("")
+    L.append("inductive Exc where")
+    for q in names:
+        L.append(f"  | {_lean_name(q)}")
+    L.append("  deriving DecidableEq, Repr")
+    L.append("")
+    L.append("def Exc.name : Exc → String")
+    for q in names:
+        L.append(f"  | .{_lean_name(q)} => \"{q}\"")
+    L.append("")
+    L.append("def allExc : List Exc := [" + ", ".join("." + _lean_name(q) for q in names) + "]")
+    L.append("")
+    L.append("/-- live `issubclass(a, b)` -/")
+    L.append("def supers : Exc → List Exc")
+    for q in names:
+        sup = [r for r in names if issubclass(cls[q], cls[r])]
+        L.append(f"  | .{_lean_name(q)} => [" + ", ".join("." + _lean_name(r) for r in sup) + "]")
+    L.append("")
+    L.append("def sub (a b : Exc) : Bool := (supers a).contains b")
+    L.append("")
+    L.append("def parseErrors : List Exc := [" + ", ".join("." + _lean_name(q) for q in PARSE_ERRORS) + "]")
+    L.append("")
+    L.append("open EasyNet in")
+    L.append("def pipelines : List (Pipeline Exc) := [")
+    items = []
+    for p in pipelines:
+        layers = []
+        for layer in p["layers"]:
+            hs = []
+            for h in layer["handlers"]:
+                cl = "[" + ", ".join("." + _lean_name(c) for c in h["classes"]) + "]"
+                if h["action"] == "convert":
+                    act = f".convert .{_lean_name(h['target'])}"
+                elif h["action"] == "swallow":
+                    act = ".swallow"
+                else:
+                    act = ".reraise"
+                hs.append(f"⟨{cl}, {act}⟩")
+            layers.append("[" + ", ".join(hs) + "]")
+        alpha = [a for a in p["alphabet"] if (p["name"], a) not in SWALLOW_OK]
+        items.append(f"  ⟨\"{p['name']}\", [" + ", ".join("." + _lean_name(a) for a in alpha) + "],\n    ["
+                     + ",\n     ".join(layers) + "]⟩")
+    L.append(",\n".join(items))
+    L.append("]")
+    L.append("")
+    L.append("end EasyNet.Gen")
+    return "\n".join(L) + "\n"
+
+
+def regenerate() -> bool:
+    try:
+        text = render()
+    except TranslateError as e:
+        # the source no longer has the shape the translator knows: emit a file that cannot satisfy the theorems
+        text = ("/- GENERATED: translation FAILED: " + str(e).replace("-/", "- /") + " -/\nimport EasyNet.Model.ExcFlow\n"
+                "namespace EasyNet.Gen\ninductive Exc where | untranslatable deriving DecidableEq, Repr\n"
+                "def Exc.name : Exc → String | .untranslatable => \"untranslatable\"\n"
+                "def allExc : List Exc := [.untranslatable]\ndef supers : Exc → List Exc | .untranslatable => []\n"
+                "def sub (a b : Exc) : Bool := (supers a).contains b\ndef parseErrors : List Exc := []\n"
+                "open EasyNet in\ndef pipelines : List (Pipeline Exc) := [⟨\"untranslatable\", [.untranslatable], []⟩]\n"
+                "end EasyNet.Gen\n")
+    return core.write_if_changed(GEN, text)
+
+
+def declared_alphabet() -> set[str]:
+    s: set[str] = set()
+    for p in _pipelines():
+        s.update(p["alphabet"])
+    return s
+
+
+def outside_alphabet(raised: dict[str, int]) -> list[str]:
+    """classes raised by the libraries during the run (innermost causes) that no pipeline declares.
+    EasyNetwork's own exception classes and the harness's are not library classes."""
+    import importlib
+    declared = declared_alphabet()
+    decl_classes = []
+    for q in declared:
+        m, _, n = q.rpartition(".")
+        decl_classes.append(getattr(importlib.import_module(m), n))
+    out = []
+    for q in raised:
+        if q.startswith(("easynetwork.", "props.", "builtins.StopIteration", "builtins.RuntimeError")):
+            continue
+        m, _, n = q.rpartition(".")
+        try:
+            c = getattr(importlib.import_module(m), n)
+        except Exception:
+            out.append(q)
+            continue
+        if not any(issubclass(c, d) for d in decl_classes):
+            out.append(q)
+    return sorted(out)
+
+
+def textwrap_unused() -> None:  # keep linters quiet about the import used for debugging dumps
+    textwrap.dedent("")
